@@ -90,6 +90,9 @@ func IntT(v *big.Int) *Term {
 func IntT64(v int64) *Term { return IntT(big.NewInt(v)) }
 
 func BVT(v *big.Int, w int) *Term {
+	if w <= 0 {
+		panic("BVT with width 0")
+	}
 	m := new(big.Int).Lsh(big.NewInt(1), uint(w))
 	u := new(big.Int).Mod(v, m)
 	return &Term{S: fmt.Sprintf("(_ bv%s %d)", u.String(), w), Sort: SBV, W: w, Const: true, CI: u}
@@ -660,6 +663,9 @@ func BVZeroExt(a *Term, to int) *Term {
 
 // signedVal gives the signed value of a constant bit-vector.
 func signedVal(a *Term) *big.Int {
+	if a.W <= 0 {
+		panic(fmt.Sprintf("signedVal of a term without width: %s (sort %d)", a.S, a.Sort))
+	}
 	v := new(big.Int).Set(a.CI)
 	if v.Bit(a.W-1) == 1 {
 		v.Sub(v, new(big.Int).Lsh(big.NewInt(1), uint(a.W)))
